@@ -162,7 +162,15 @@ def run_histories(ctx, exe, histories, label, focus):
     il = o1.decode('latin1').splitlines()
     dl = o2.decode('latin1').splitlines()
     ml, sl = dl[0::2], dl[1::2]
-    if rc1 != 0:
+    if rc1 != 0 and len(il) < len(index):
+        # the harness process itself died (a fault outside the guarded call, e.g. while the structure was inspected after the
+        # operation): the first op without an answer is the one that broke the table
+        hi, oi = index[len(il)]
+        hdr, ops = histories[hi]
+        sig = {'op': ops[oi].split()[0], 'observed': 'crash'}
+        ctx.report('impl-vs-spec', sig, 'tree table: the process died (exit %s) at `%s`: the operation or the inspection of the structure it left behind faulted' % (rc1, ops[oi][:60]),
+                   {'ops': hdr + ops[:oi + 1], 'failing_op': ops[oi], 'impl': 'process exit %s' % rc1, 'stderr': e1.decode('latin1')[-400:]})
+    elif rc1 != 0:
         ctx.broken.append(('correspondence:%s-harness' % label, 'harness exit %s: %s' % (rc1, e1.decode('latin1')[-400:])))
     if rc2 != 0:
         ctx.broken.append(('correspondence:%s-driver' % label, 'driver exit %s: %s' % (rc2, e2.decode('latin1')[-400:])))
